@@ -321,7 +321,9 @@ def check_views(keys, tensors, shapes, reps, dt_i, ctor, base=2, params=None, fo
                 if inst != 1:
                     return f"{desc}: histogram(key={kk!r}, {name}) returned {dict(h)} for a key with {inst} instances per repetition (must raise)"
                 if h != want:
-                    return f"{desc}: histogram(key={kk!r}, {name})={dict(h)} expected {dict(want)}"
+                    wide = name.startswith("fold_base") and any(isinstance(x, int) and x > 2 ** 63 - 1 for x in want)
+                    return (f"{desc}: histogram(key={kk!r}, {name})={dict(h)} expected {dict(want)}"
+                            + (" -- NUMPY-DIGITS-WRAP (value beyond int64: big_endian_digits_to_int on numpy rows)" if wide else ""))
                 if sum(h.values()) != reps:
                     return f"{desc}: histogram(key={kk!r}, {name}) counts {sum(h.values())} != {reps} repetitions"
     if heavy and flattenable:
